@@ -35,6 +35,8 @@ func ZZ_C01_RangeCheck() {
 	}
 	zzAssert(zzImplies(outside, err != nil), "C01.out-of-range-io-accepted")
 	zzAssert(zzImplies(outside, touched == 0), "C01.out-of-range-io-reached-a-replica")
+	// and everything inside the volume, up to its very last byte, is served
+	zzAssert(zzImplies(zzNot(outside), err == nil), "C01.in-range-io-rejected")
 	if err != nil {
 		zzReach("C01.range.rejected")
 	} else {
